@@ -17,9 +17,11 @@ var StandaloneTimeoutS = 30
 var StandaloneDir = os.TempDir()
 var StandaloneStats struct{ Calls, Sat, Unsat, Unknown int }
 
-// CrossEvery > 0: every CrossEvery-th assertion query answered by the
-// incremental z3 is discharged again, as a standalone script, by cvc5 and
-// z3-new; a definite answer that differs is an engine error (never a pass).
+// CrossEvery > 0: the 1st, the 10th and every CrossEvery-th assertion query
+// answered by a worker's incremental z3 is discharged again, as a standalone
+// script, by cvc5 and z3-new; a definite answer that differs is an engine
+// error (never a pass). The early samples exist because workers are recycled
+// between entries: short entries never reach the CrossEvery-th query.
 var CrossEvery = 0
 var CrossStats struct{ Checked, Agreed, Inconclusive int }
 var crossCounter = 0
@@ -29,7 +31,7 @@ func (e *Engine) crossCheck(extra []*Term, primary string) {
 		return
 	}
 	crossCounter++
-	if crossCounter%CrossEvery != 0 {
+	if crossCounter != 1 && crossCounter != 10 && crossCounter%CrossEvery != 0 {
 		return
 	}
 	var sb strings.Builder
